@@ -93,7 +93,8 @@ class EnumMetaType(EnumMeta, MetaType):
         return list(map(cls, cls.type._read_0(stream, context)))
 
     def _write(cls, stream: BinaryIO, data: Enum) -> int:
-        return cls.type._write(stream, data.value)
+        # A plain integer is written as is, like the entries of an enum array
+        return cls.type._write(stream, data.value if isinstance(data, _Enum) else data)
 
     def _write_array(cls, stream: BinaryIO, array: list[BaseType | int]) -> int:
         data = [entry.value if isinstance(entry, _Enum) else entry for entry in array]
